@@ -564,7 +564,7 @@ pub fn c11_case(ctx: &mut Ctx, rng: &mut Rng) {
             1 => i16::MIN,
             _ => rng.range(-500, 500) as i16,
         };
-        rows.push(LexRow { surface, l: rng.below(3) as u16, r: rng.below(3) as u16, cost, feat });
+        rows.push(LexRow { surface, l: rng.below(3) as u16, r: rng.below(5) as u16, cost, feat });
     }
     // serialise with random per-field quoting, blank lines, with/without the final newline
     let mut csv = String::new();
@@ -580,7 +580,8 @@ pub fn c11_case(ctx: &mut Ctx, rng: &mut Rng) {
     }
     let no_final_newline = !csv.ends_with('\n');
     // a feature ending in an open construct cannot be given without a final newline unambiguously: keep as generated
-    let matrix = "3 3\n";
+    // a non-square connector: 5 right ids, 3 left ids
+    let matrix = "5 3\n";
     let char_def = "DEFAULT 1 0 1\n";
     let unk_def = "DEFAULT,0,0,30000,UNK\n";
     let sys_csv = if user_side { "zzz,0,0,1,S\n".to_string() } else { csv.clone() };
